@@ -455,15 +455,26 @@ def run(repo: Repo, rep: Report, tier: str) -> None:
         else:
             rep.violation("R8.5", f"{ucd.relpath}:{EXIT} decrement", f"{ex.fq}|decrement",
                           f"a path through exit does not decrement recursion_depth: {cfg.describe_path(p or [])}", ex.loc())
+        XL = Locals(ex.node)
+
+        def _is_attr(e: ast.AST, attr: str) -> bool:
+            """`<ctx>.<attr>` directly or through a local alias (`open_names = context.schema_stack`)"""
+            ei = XL.inline(e, stop=tuple(XL.params))
+            if isinstance(ei, ast.Name):  # a mutated alias is not inlined: look at its single binding
+                ds = XL.defs.get(ei.id, [])
+                if len(ds) == 1 and ds[0][1] is not None:
+                    ei = ds[0][1]
+            return isinstance(ei, ast.Attribute) and ei.attr == attr
+
         rem = [n for n in cfg.nodes if n.ast is not None and n.kind == "stmt" and any(
-            isinstance(c.func, ast.Attribute) and c.func.attr in ("remove", "pop") and isinstance(c.func.value, ast.Attribute)
-            and c.func.value.attr == "schema_stack" for c in calls_in(n.ast))]
+            isinstance(c.func, ast.Attribute) and c.func.attr in ("remove", "pop") and _is_attr(c.func.value, "schema_stack") for c in calls_in(n.ast))]
         if rem:
             rep.ok("R8.5", f"{ucd.relpath}:{EXIT} stack removal", "the name is removed from schema_stack", ex.loc(rem[0].ast))
         else:
             rep.violation("R8.5", f"{ucd.relpath}:{EXIT} stack removal", f"{ex.fq}|stack-removal",
                           "exit does not remove the name from schema_stack: later references are reported as cycles", ex.loc())
-        comp = [n for n in cfg.nodes if isinstance(n.ast, ast.Assign) and "schema_states" in norm(n.ast.targets[0]) and "COMPLETED" in norm(n.ast.value)]
+        comp = [n for n in cfg.nodes if isinstance(n.ast, ast.Assign) and "COMPLETED" in norm(n.ast.value) and (
+            "schema_states" in norm(n.ast.targets[0]) or (isinstance(n.ast.targets[0], ast.Subscript) and _is_attr(n.ast.targets[0].value, "schema_states")))]
         guarded = False
         if comp:
             dom = cfg.dominators()
